@@ -130,6 +130,7 @@ Proof.
   - (* KStateSet: restore *)
     destruct (nget (drains st) (goid (e_by e))) as [d|] eqn:Hd; [|inv_some; exact Hinv].
     destruct (d_cancel d) as [ct|] eqn:Hct; [|discriminate].
+    destruct (tstate_eqb new TDraining) eqn:Hnd; [discriminate|].
     destruct (_ && _) eqn:Hcond; [|discriminate].
     destruct (notify st d (e_t e)) as [cs|] eqn:Hn; [|discriminate]. inv_some.
     intros Hp. cbn in Hp |- *. destruct (Hinv Hp) as [H1 H2]. split; [|apply all_ndel; exact H2].
